@@ -1,4 +1,33 @@
+/-
+C08 — constants pinned: table theorems re-checked on every run over the coin table regenerated
+from /repo (`Gen.coinRows`) against the pinned registry (`Golden.coinRows`).
+-/
+import BipVerif.Gen.Coins
+import BipVerif.Golden.Coins
 import BipVerif.Model.Bip44
+
 namespace BipVerif.Props.C08
-theorem placeholder : True := trivial
+open BipVerif BipVerif.Model
+
+/-- every registered member is present with exactly its registered constants (SLIP-44 index, key and WIF
+version bytes, address format and parameters, default path, curve, alias class); new members are allowed -/
+theorem consts_eq_registry : ∀ g ∈ Golden.coinRows, g ∈ Gen.coinRows := by decide +kernel
+
+theorem other_consts_eq_registry : ∀ g ∈ Golden.otherCoins, g ∈ Gen.otherCoins := by decide +kernel
+
+/-- well-formedness of every configured member: version words are 4 bytes, the WIF version is one
+byte, the BIP-32 class is known, the default path parses as a relative path -/
+def rowWf (r : CoinRow) : Bool :=
+  r.keyNetPub.length == 4 && r.keyNetPriv.length == 4 && (match r.wifNetVer with | some v => v.length == 1 | none => true)
+    && (bip32ClassOf r.bip32).isSome
+    && (match parsePath r.defPath.toList with | .ok p => !p.absolute | .error _ => false)
+    && decide (r.coinIdx < 2 ^ 31)
+
+theorem table_wf : ∀ r ∈ Gen.coinRows, rowWf r = true := by decide +kernel
+
+/-- members denoting one configuration object (aliases) agree on every constant -/
+theorem aliases_same_conf : ∀ a ∈ Gen.coinRows, ∀ b ∈ Gen.coinRows,
+    a.family = b.family → a.confId = b.confId → a.variant = b.variant →
+      { a with member := "" } = { b with member := "" } := by decide +kernel
+
 end BipVerif.Props.C08
